@@ -185,8 +185,13 @@ pub fn dispatch(op: &str, a: &[String]) -> String {
             let o = opts::decode(&a[1]);
             let arena = Arena::new();
             let root = tree::build(&arena, &a[2..]);
-            let s = slugs(root);
-            format!("{} S{}", ok(&render(&a[0], root, &o)), s)
+            if a[0] == "html" {
+                // the slug oracle is only needed by the HTML model (heading anchors)
+                let s = slugs(root);
+                format!("{} S{}", ok(&render(&a[0], root, &o)), s)
+            } else {
+                ok(&render(&a[0], root, &o))
+            }
         }
         // rt <opts> <md> -> ok H1 | C1 | H2 | C2   (CommonMark round trip, each stage guarded)
         "rt" => {
